@@ -2,6 +2,7 @@ import A2Verif.Model.Fs.Pascal
 import A2Verif.Model.Fs.Dos3x
 import A2Verif.Model.Fs.Prodos
 import A2Verif.Model.Fs.Cpm
+import A2Verif.Model.Fs.Fat
 /-!
 # C12, file-system read paths: identification checks and the read-only queries the concrete models lack
 
@@ -523,5 +524,76 @@ def getV (fixed : Bool) (d : Dpb) (r : Raw) (xname : Bytes) (absIdx : Bool := fa
             { access := access, fsType := fsType, eof := 0, created := [], modified := [], chunks := [] }
 
 end Cpm
+
+/-! ## FAT (`/repo/src/fs/fat/mod.rs`, `/repo/src/bios/bpb.rs`) -/
+namespace Fat
+open A2Verif.Fs.Fat
+
+/-- outcome class of a FAT-model result (`unmodelled` — stored name byte ≥ 128, FAT32 — counts as `err` here; the
+driver reports it separately and the tie does not compare it) -/
+def cls {α : Type} : R α → Cls
+  | .ok _ => .ok
+  | .error .panic => .panic
+  | .error _ => .err
+
+theorem cls_panic_iff {α : Type} (x : R α) : cls x = .panic ↔ x = .error .panic := by
+  cases x with
+  | ok a => simp [cls]
+  | error e => cases e <;> simp [cls]
+
+/-- `BPBFoundation::verify` (bpb.rs:149-178) on the parsed foundation -/
+def foundationVerify (b : Bpb) : Bool :=
+  [512, 1024, 2048, 4096].contains b.bps && [1, 2, 4, 8, 16, 32, 64, 128].contains b.spc && b.rsvd != 0 && b.nfat != 0
+    && !(decide (b.bps > 0) && (b.rootEnt0 + 256 * b.rootEnt1) * 32 % b.bps != 0) && !(b.tot16 == 0 && b.tot32 == 0)
+
+/-- `BootSector::verify(sec_data)` (bpb.rs:349-379).  The indices `sec_data[510]`, `[511]`, `[11..36]`, `[36..64]` come after
+the test `sec_data.len() < 512`, so `getD` reads what the Rust reads.
+`szFixed = false`: as written.  `szFixed = true`: repair `c12fat-sector-size-mismatch` — the BPB's sector size must be the
+length of the sector that was read (the cluster and FAT arithmetic use the former, every buffer has the latter). -/
+def verify (szFixed : Bool) (sec : Bytes) : Bool :=
+  if sec.length < 512 then false else
+  let b := Bpb.ofBoot sec
+  (sec.getD 510 0 == 0x55 && sec.getD 511 0 == 0xAA) && foundationVerify b && (!szFixed || b.bps == sec.length)
+    && b.fatSecs != 0 && !decide (b.totSec ≤ b.rsvd + b.nfat * b.fatSecs + b.rootDirSecs)
+
+/-- `Disk::test_img` (mod.rs:125-132): `img.read_sector(0,0,1)` then `verify` -/
+def testImg (szFixed : Bool) (r : Raw) : Bool :=
+  match r.units[0]? with
+  | some b => verify szFixed b
+  | none => false
+
+/-- `Disk::from_img(img, None)` (mod.rs:82-110): `BootSector::from_bytes` slices `bytes[64..90]` and calls `fat_type()`
+(`data_rgn_secs` subtracts, `cluster_count_abstract` divides by `sec_per_clus`) on the unverified sector.
+`repl` = the tabulated foundation that replaces the one read when the image kind is 160K / 180K (`replace_foundation`);
+`fat_type()` of the buffered foundation is evaluated after the replacement. -/
+def mount (lf : Bool) (repl : Option Bpb) (r : Raw) : R Disk :=
+  match r.units[0]? with
+  | none => .error .imgErr
+  | some b =>
+    if b.length < 90 then .error .panic else
+    let b0 := Bpb.ofBoot b
+    if b0.spc = 0 ∨ b0.totSec < b0.firstDataSec then .error .panic else
+    let bpb := repl.getD b0
+    if bpb.spc = 0 ∨ bpb.totSec < bpb.firstDataSec then .error .panic else
+    .ok (Disk.ofImg r bpb lf)
+
+/-- `get(path)` (mod.rs:1337).  `wf = false`: as written = `Fs.Fat.get` (a wildcard `FileInfo` reaches
+`finfo.cluster1.unwrap()`); `wf = true`: repair `c12fat-get-wildcard` (refused with `Syntax`, as `delete` does). -/
+def getV (wf : Bool) (path : Bytes) : M Got := fun d =>
+  if wf then
+    match gotoPath path d with
+    | (.ok (_, fi), d') => if fi.wildcard then (.error .syntax, d') else get path d
+    | (.error e, d') => (.error e, d')
+  else get path d
+
+/-- the FAT12 / FAT16 foundations `SSDD_525_8`, `SSDD_525_9` of bpb.rs:541-569 (`replace_foundation` for 160K / 180K images) -/
+def ssdd8 : Bpb :=
+  ⟨512, 1, 1, 2, 64, 0, 320, 254, 1, 8, 1, 0, 0⟩
+def ssdd9 : Bpb := { ssdd8 with tot16 := 360, media := 252, spt := 9 }
+
+/-- what `from_img` does with the image kind: 320 / 360 units of 512 bytes are `IBM_SSDD_8` / `IBM_SSDD_9` -/
+def replFor (r : Raw) : Option Bpb := if r.units.size = 320 then some ssdd8 else if r.units.size = 360 then some ssdd9 else none
+
+end Fat
 
 end A2Verif.C12FsId
